@@ -4,7 +4,7 @@ from __future__ import annotations
 import os
 from . import core, tlaval, dsdlio
 
-NAMES = {"X": 1, "Y": 2, "Z": 3, "x": 4, "y": 5}
+NAMES = {"X": 1, "Y": 2, "Z": 3, "x": 4, "y": 5, "a": 6}
 NS = {1: "a", 2: "b", 3: "a"}
 
 def idnum(i) -> int:
